@@ -15,7 +15,7 @@ func init() {
 		ID:  "C29",
 		Run: runC29,
 		Explanation: "Static decision of the containment structure of S3 keys: (1) TAINT-http-read: a request-derived string other than the router's path variables (the copy-source header) reaches the URL of an HTTP read from the filer only past a test that refuses '..' segments (the filer's HTTP front normalises paths, so '..' climbs out of the bucket and out of the buckets root); (2) SIB-escape: every handler that reads an object over HTTP builds the filer URL from the router's object variable through urlPathEscape (an unescaped '%2F' is decoded and normalised by the filer); the router never disables path cleaning; " +
-			"(3) GUARD-uploads-area: the listing never reports or enters the internal upload folder, and the object handlers refuse keys inside it. Flows into gRPC directory/name arguments (upload id, batch-delete keys) are not armed: the filer store treats them as literal names, which keeps them inside the bucket's own directory tree. HTTP writes and deletes are not armed either: the filer answers a non-normalised path with a redirect that Go's client turns into a GET.",
+			"(3) GUARD-uploads-area: the listing never reports or enters the internal upload folder, and the object handlers refuse keys inside it. Flows into gRPC directory/name arguments (upload id, batch-delete keys) are not armed: the filer store treats them as literal names, which keeps them inside the bucket's own directory tree. HTTP writes and deletes are not armed either: the filer answers a non-normalised path with a redirect that Go's client turns into a GET. Also decided: urlPathEscape escapes every segment unconditionally; every use of the internal upload area names the bucket of the request, never one derived from the copy source.",
 		Assumptions: []string{"gorilla/mux cleans the request path unless SkipClean is enabled", "the filer HTTP server is a net/http ServeMux, which redirects non-canonical paths"},
 		Trusted:     append([]string{"gorilla/mux path cleaning", "net/http ServeMux path canonicalisation"}, baseTrusted...),
 	})
